@@ -97,8 +97,7 @@ _rm.raises = {"FileNotFoundError": (lambda c: Ite(c.h.get("FileSystem.is_local",
 contract(
     f"{L}:LocalHashFileDB.protect", params=dict(self=HashFileDB, path=TStr),
     modifies=lambda c: [("G.l444",)],
-    ensures=lambda c: And(l444(c.h).subset(l444(c.h0).add(c.path)), l444(c.h0).subset(l444(c.h)),
-                          Implies(l444(c.h).contains(c.path), lfiles(c.h).contains(c.path))),
+    ensures=lambda c: Or(l444(c.h) == l444(c.h0), And(l444(c.h) == l444(c.h0).add(c.path), lfiles(c.h).contains(c.path))),
     assumed=True, verify=False,
     doc="os.chmod(path, 0o444), failures swallowed: at most this one path becomes protected; nothing is unprotected",
 )
@@ -146,7 +145,7 @@ def _check_post_base(c):
         lfiles(c.h) == lfiles(c.h0),                     # an accepted object is not touched
         lfiles(c.h).contains(P(c)),
         Implies(c.check_hash, goodp(c)),                  # accepted after hashing => the bytes match the name
-        l444(c.h0).subset(l444(c.h)), l444(c.h).subset(l444(c.h0).add(P(c))),
+        Or(l444(c.h) == l444(c.h0), l444(c.h) == l444(c.h0).add(P(c))),
     )
 
 
@@ -169,7 +168,7 @@ def _check_post_local(c):
         # accepted => it was write-protected already (trusted without hashing) or its bytes match its name
         Or(l444(c.h0).contains(P(c)), Implies(c.check_hash, goodp(c))),
         # a successful (hashing) check leaves a local object read-only -- unless chmod failed (swallowed)
-        l444(c.h0).subset(l444(c.h)), l444(c.h).subset(l444(c.h0).add(P(c))),
+        Or(l444(c.h) == l444(c.h0), l444(c.h) == l444(c.h0).add(P(c))),
     )
 
 
@@ -263,7 +262,7 @@ def _oe_inv(c):
                _state_inv_of(c.h, c.h.get("HashFileDB.state", c.self)))
 
 
-from specs.heap import O_injective  # noqa: E402
+from specs.heap import O_injective, O_inv_axiom  # noqa: E402
 
 contract(
     f"{L}:LocalHashFileDB.oids_exist",
@@ -286,3 +285,187 @@ contract(
 def _all(L, f):
     i = SV(z3.Const("i!al", z3.IntSort()), TInt)
     return SV(z3.ForAll([i.t], Implies(And(i >= 0, i < L.length()), f(L[i])).t), TBool)
+
+
+# =====================================================================================================
+# HashFileDB.add: verify / protect / state order (C07 'verify never retains a mismatching object', C15 crash condition)
+# =====================================================================================================
+from pyvc.types import TOMap  # noqa: E402
+from specs.heap import Callback  # noqa: E402
+
+OIDS = TList(OStr)
+
+
+def _req(c, o):  # o: Str is one of the requested ids
+    return specfn.list_elems(c.oid).contains(OStr.some(o))
+
+
+def _added_only_requested(c):
+    """ObjectDB.add creates nothing but the requested objects and removes nothing"""
+    o = SV(z3.String("o!ad"), TStr)
+    path = c.h0.get("HashFileDB.path", c.self)
+    return And(lfiles(c.h0).subset(lfiles(c.h)),
+               SV(z3.ForAll([o.t], Implies(And(lfiles(c.h).contains(O(path, o)), Not(lfiles(c.h0).contains(O(path, o)))), _req(c, o)).t), TBool),
+               # what is placed carries the source's bytes, which hash to the id it is filed under (Named, the caller's obligation)
+               SV(z3.ForAll([o.t], Implies(And(lfiles(c.h).contains(O(path, o)), Not(lfiles(c.h0).contains(O(path, o)))),
+                                           first(cur(c.h0.get("HashFileDB.fs", c.self), c.h0.get("HashFileDB.hash_name", c.self), O(path, o))) == first(o)).t), TBool),
+               # copies (no hard links) arrive unprotected; protection of everything else is untouched
+               Implies(Not(c.hardlink), SV(z3.ForAll([o.t], (l444(c.h).contains(O(path, o)) == l444(c.h0).contains(O(path, o))).t), TBool)))
+
+
+contract(
+    "ext:dvc_objects.db.ObjectDB.add",
+    params=dict(self=HashFileDB, path=TList(TStr), fs=FileSystem, oid=OIDS, hardlink=TBool, check_exists=TBool),
+    returns=TInt,
+    modifies=lambda c: [("G.lfiles",), ("G.l444",), ("HashFileDB.objs", c.self)],
+    ensures=_added_only_requested,
+    assumed=True,
+    doc="ObjectDB.add: places (some of) the requested objects at oid_to_path(oid) via tmp-name + rename, removes nothing, creates "
+        "nothing else that parses as an object; copies arrive unprotected (with hardlink=True the mode is the source's); "
+        "on_error callbacks are not modelled here (they only touch the caller's state)",
+)
+
+
+def crash_inv(c):
+    """no mismatching object is ever write-protected unless it was so before the call.
+    Claimed for copies (hardlink=False): a hard link shares the mode of its source, so a write-protected corrupt SOURCE
+    yields a write-protected corrupt object -- observed as F-C07a, outside the clause claimed here (DESIGN)."""
+    return Or(c.hardlink, _crash_inv(c))
+
+
+def _crash_inv(c):
+    o = SV(z3.String("o!ci"), TStr)
+    path = c.h0.get("HashFileDB.path", c.self)
+    good = first(cur(c.h0.get("HashFileDB.fs", c.self), c.h0.get("HashFileDB.hash_name", c.self), O(path, o))) == first(o)
+    return SV(z3.ForAll([o.t], Implies(l444(c.h).contains(O(path, o)), Or(l444(c.h0).contains(O(path, o)), good)).t), TBool)
+
+
+def _good_o(c, o):
+    path = c.h0.get("HashFileDB.path", c.self)
+    return first(cur(c.h0.get("HashFileDB.fs", c.self), c.h0.get("HashFileDB.hash_name", c.self), O(path, o))) == first(o)
+
+
+def _verified_prefix(c, K, n):
+    """objects whose post-copy check has run: present => matches its name or was write-protected before the call"""
+    j = SV(z3.Int("j!vp"), TInt)
+    path = c.h0.get("HashFileDB.path", c.self)
+    return SV(z3.ForAll([j.t], Implies(And(j >= 0, j < n, c.loc.verify if hasattr(c.loc, "_d") and "verify" in c.loc else lift(True)),
+                                       Implies(lfiles(c.h).contains(O(path, K[j].val)), Or(_good_o(c, K[j].val), l444(c.h0).contains(O(path, K[j].val))))).t), TBool)
+
+
+def _add_common(c):
+    return And(crash_inv(c), _sinv(c), lfiles(c.h0).subset(lfiles(c.h)).t if False else lift(True))
+
+
+def _present_ok(c):
+    """every requested object that is present is intact or was write-protected before the call"""
+    j = SV(z3.Int("j!pk2"), TInt)
+    path = c.h0.get("HashFileDB.path", c.self)
+    return SV(z3.ForAll([j.t], Implies(And(j >= 0, j < c.oid.length(), lfiles(c.h).contains(O(path, c.oid[j].val))),
+                                       Or(_good_o(c, c.oid[j].val), l444(c.h0).contains(O(path, c.oid[j].val)))).t, patterns=[c.oid[j].t]), TBool)
+
+
+def _loop_pre(c):  # `for o in oids: check(o)` before the copy
+    return And(crash_inv(c), _sinv(c), _present_ok(c), lfiles(c.h).subset(lfiles(c.h0)))
+
+
+def _loop_post(c):  # `for o, cache_path in oid_cache_paths.items()`: check then protect
+    K = c.loc.oid_cache_paths.ty.keys(c.loc.oid_cache_paths)
+    j = SV(z3.Int("j!lp"), TInt)
+    path = c.h0.get("HashFileDB.path", c.self)
+    ver = lift(c.engine.truth(c.loc.verify), TBool)
+    done = SV(z3.ForAll([j.t], Implies(And(j >= 0, j < c.idx, ver, Not(c.hardlink)),
+                                       Implies(lfiles(c.h).contains(O(path, c.oid[j].val)), Or(_good_o(c, c.oid[j].val), l444(c.h0).contains(O(path, c.oid[j].val))))).t,
+                       patterns=[c.oid[j].t]), TBool)
+    same = SV(z3.ForAll([j.t], Implies(And(j >= 0, j < c.oid.length()), And(K[j] == c.oid[j], c.loc.oid_cache_paths[c.oid[j]] == O(path, c.oid[j].val))).t,
+                       patterns=[c.oid[j].t, K[j].t]), TBool)
+    return And(crash_inv(c), _sinv(c), _present_ok(c), done)
+
+
+def _all_some(K):
+    j = SV(z3.Int("j!as"), TInt)
+    return SV(z3.ForAll([j.t], Implies(And(j >= 0, j < K.length()), And(K[j].is_some, K[j].val.length() > 0)).t, patterns=[K[j].t]), TBool)
+
+
+def _distinct_ids(c):
+    i, j = z3.Int("i!di"), z3.Int("j!di")
+    return SV(z3.ForAll([i, j], z3.Implies(z3.And(0 <= i, i < j, j < c.oid.length().t), c.oid[SV(i, TInt)].t != c.oid[SV(j, TInt)].t)), TBool)
+
+
+def _hint_path(c):
+    """inside the post-copy loop: the path handed to protect() is the path of the object just checked"""
+    if "cache_path" not in c.loc:
+        return lift(True)
+    pth = O(c.h0.get("HashFileDB.path", c.self), c.loc.o.val)
+    return And(c.loc.cache_path == pth,
+               # ... and that object, if it is (or gets) write-protected, is intact or was protected before the call
+               Or(c.hardlink, Not(lift(c.engine.truth(c.loc.verify), TBool)), _good_o(c, c.loc.o.val), l444(c.h0).contains(pth)))
+
+
+def _add_post(c):
+    o = SV(z3.String("o!ap"), TStr)
+    j = SV(z3.Int("j!ap"), TInt)
+    path = c.h0.get("HashFileDB.path", c.self)
+    present, kv = c.kwargs.items["verify"]
+    verify = Ite(And(SV(present, TBool), kv.is_some), kv.val, c.h0.get("HashFileDB.verify", c.self))
+    return And(
+        crash_inv(c),
+        # C07: a store configured to verify never retains a mismatching (unprotected) object after an add
+        Implies(And(verify, Not(c.hardlink)),
+                SV(z3.ForAll([j.t], Implies(And(j >= 0, j < c.oid.length(), lfiles(c.h).contains(O(path, c.oid[j].val))),
+                                            Or(_good_o(c, c.oid[j].val), l444(c.h0).contains(O(path, c.oid[j].val)))).t, patterns=[c.oid[j].t]), TBool)),
+    )
+
+
+REG.by_name.pop("dvc_data.hashfile.db:HashFileDB.add", None)
+contract(
+    f"{D}:HashFileDB.add",
+    params=dict(self=HashFileDB, path=TList(TStr), fs=FileSystem, oid=OIDS, hardlink=TBool, callback=TOpt(Callback), check_exists=TBool,
+                on_error=None, kwargs={"verify": TOpt(TBool)}),
+    returns=TInt,
+    requires=lambda c: And(
+        c.path.length() == c.oid.length(),
+        _all_some(c.oid),
+        # Named (content addressing): every object is filed under the digest of the bytes at the path it is copied from
+        _named(c),
+    ),
+    raises={"NotImplementedError": (None, None)},
+    modifies=lambda c: [("G.lfiles",), ("G.l444",), ("HashFileDB.objs", c.self), ("FileSystem.files", None), ("FileSystem.removed", None), ("HashesCache.table", None)],
+    locals=dict(),
+    invariants={0: _loop_pre, 1: _loop_post},
+    crash=crash_inv,
+    hints={"HashFileDB.check": lambda c: _hint_path(c), "LocalHashFileDB.check": lambda c: _hint_path(c)},
+    ensures=_add_post,
+    # the body is verified for duplicate-free id lists (a dict comprehension keyed by the ids collapses duplicates; callers are
+    # not asked to establish this: recorded restriction)
+    entry_assume=lambda c: And(_distinct_ids(c), O_injective(), _local(c), _sinv(c), _wf_requested(c)),
+    props=["C07", "C15", "C01"],
+    doc="order inside add: pre-copy check, copy, post-copy check, protect, then state rows; a mismatching object is never "
+        "write-protected (crash condition after every mutating call) and, under verify, never retained",
+)
+
+
+def _wf_requested(c):
+    """WF: a requested object that is already in the store is intact or write-protected (add() skips the copy and protects it)"""
+    j = SV(z3.Int("j!wfp"), TInt)
+    p_ = O(c.h.get("HashFileDB.path", c.self), c.oid[j].val)
+    return SV(z3.ForAll([j.t], Implies(And(j >= 0, j < c.oid.length(), lfiles(c.h).contains(p_)), Or(_good_o(c, c.oid[j].val), l444(c.h).contains(p_))).t), TBool)
+
+
+def _named(c):
+    i = SV(z3.Int("i!nm"), TInt)
+    return SV(z3.ForAll([i.t], Implies(And(i >= 0, i < c.path.length()),
+                                       c.oid[i] == OStr.some(cur(c.fs, c.h.get("HashFileDB.hash_name", c.self), c.path[i]))).t), TBool)
+
+
+from specs.state import State as _StateT, StateBase as _StateBase, StateNoop as _StateNoop  # noqa: E402
+from pyvc.types import TTuple, TAbs  # noqa: E402
+
+_Rows = TList(TTuple([TStr, HashInfo, TOpt(TAbs("Nothing"))]))
+for _cls, _ref in (("State", _StateT), ("StateNoop", _StateNoop)):
+    contract(
+        f"dvc_data.hashfile.state:{_cls}.save_many", params=dict(self=_ref, items=_Rows, fs=FileSystem),
+        modifies=lambda c: [("HashesCache.table", None)],
+        assumed=True, verify=False,
+        doc="[not verified; nothing is claimed about the rows add() writes] one transaction of upserts for the paths that exist",
+    )
